@@ -33,7 +33,10 @@ def run(ctx: Ctx):
     from .. import special
     from . import _imgbase
     im = _imgbase.image(ctx)
-    probs = [p for p in special.factory_wiring(im) if p[0].startswith("structure")]
+    # only what the disambiguator depends on: the factory is registered, returns the generated function, and the
+    # rename it carries is stable (omit_if_default plays no part in structuring)
+    probs = [p for p in special.factory_wiring(im) if p[0].startswith("structure")
+             and not (":order:" in p[0] and "omit_if_default:" in p[1])]
     for construct, msg, ln in probs:
         ctx.fail("native-disambiguator-sees-wire-names", construct, msg, P_HOOKS, ln or None)
     ren = special.folded_rename(im, "structure")
